@@ -330,7 +330,8 @@ class DictWorld(World):
 
     def __init__(self, *, users=None, demo_data: bool = False,
                  tls_enabled: bool = False, seed: int = 0,
-                 bad_command_limit: int | None = 5, **overrides) -> None:
+                 bad_command_limit: int | None = 5, hash_context=None,
+                 **overrides) -> None:
         super().__init__(seed)
         from pymap.backend.dict import DictBackend
         from pymap.concurrent import Subsystem
@@ -341,16 +342,16 @@ class DictWorld(World):
         args = Args(demo_data=demo_data, tls=tls_enabled)
         if demo_data:
             args.demo_data = 'pymap.backend.dict'
+        hc = hash_context if hash_context is not None else _hash_context()
         self.backend, self.config = self.loop.run_coro(DictBackend.init(
-            args, hash_context=_hash_context(), invalid_user_sleep=0.0,
+            args, hash_context=hc, invalid_user_sleep=0.0,
             cpu_subsystem=Subsystem.for_asyncio(),
             bad_command_limit=bad_command_limit, **overrides))
         login = self.backend.login
         for name, (pw, roles) in users.items():
-            key = pw
+            key = (pw, type(hc).__name__)
             if key not in _pw_cache:
-                _pw_cache[key] = _hash_context().hash(
-                    self.config.password_prep(pw))
+                _pw_cache[key] = hc.hash(self.config.password_prep(pw))
             login.users_dict[name] = UserMetadata(
                 self.config, name, password=_pw_cache[key],
                 roles=frozenset(roles))
